@@ -927,6 +927,15 @@ def record_cases(rng: random.Random) -> List[TCase]:
             for wrap_a, wrap_x in ((lambda t: t, lambda v: v), (lambda t: ("AList", t), lambda v: ("VList", [v]))):
                 for sig in (False, True):
                     out.append(TCase(classes, wrap_a(a), wrap_x(x), sig, "records"))
+    # unions and mixed-kind Literals of nine and ten members (no limit on the number of alternatives)
+    nine = [sc(k) for k in ("KStr", "KInt", "KFloat", "KBool", "KBytes", "KDecimal", "KUuid", "KDate", "KDatetime")]
+    for a_ in (("AUnion", nine), ("AUnion", nine + [("ANone",)]), ("AList", ("AUnion", nine)),
+               ("ALiteral", [S("a"), I(1), G.TRUE, G.B(b"a"), G.NONE, S("b"), I(2), G.FALSE, G.B(b"b")]),
+               ("ALiteral", [S("a"), I(1), G.TRUE, G.B(b"a"), G.NONE, S("b"), I(2), G.FALSE, G.B(b"b"), S("c")])):
+        for x in (G.DT1, G.NONE, S("a"), I(2), G.B(b"b"), G.F1, ("VList", []), G.D1):
+            xx = ("VList", [x]) if a_[0] == "AList" else x
+            for sig in (False, True):
+                out.append(TCase(base, a_, xx, sig, "records"))
     # the tuple of no slots, Tuple[()]: only the empty tuple (and, in default mode, the empty list) - bare, as a
     # union variant, as a list item
     e_ = ("ATupleN", [])
